@@ -611,7 +611,9 @@ where
             | DataCmdType::Bzpopmax => CmdReplyFuture::Right(Box::pin(
                 self.handle_blocking_commands(cmd_ctx, reply_receiver),
             )),
-            DataCmdType::Eval => self.handle_eval_cmd(cmd_ctx, reply_receiver),
+            DataCmdType::Eval | DataCmdType::Evalsha => {
+                self.handle_eval_cmd(cmd_ctx, reply_receiver)
+            }
             _ => {
                 self.handle_single_key_data_cmd(cmd_ctx);
                 CmdReplyFuture::Left(reply_receiver)
